@@ -78,7 +78,7 @@ def rand_case(rng, kind):
 def cases(tier, seed):
     rng = np.random.default_rng(9000 + seed)
     out = []
-    n = 40 if tier == "quick" else 400
+    n = 40 if tier == "quick" else 1200
     for k in range(n):
         c = rand_case(rng, "pg")
         if k % 10 == 0:
@@ -86,16 +86,16 @@ def cases(tier, seed):
         if k % 10 == 1:
             c["flow"]["alpha"] = 0.0
         out.append(c)
-    for k in range(12 if tier == "quick" else 100):
+    for k in range(12 if tier == "quick" else 300):
         c = rand_case(rng, "m0")
         c["flow"]["Mach_number"] = 0.0
         c["flow"]["beta"] = 0.0
         out.append(c)
-    for k in range(4 if tier == "quick" else 30):
+    for k in range(4 if tier == "quick" else 90):
         c = rand_case(rng, "cont")
         c["_cost"] = 8
         out.append(c)
-    for k in range(3 if tier == "quick" else 16):
+    for k in range(3 if tier == "quick" else 48):
         spec = M.random_spec(rng, half="left", nx=int(rng.integers(2, 4)), ny=int(rng.integers(3, 6)))
         out.append(dict(kind="as", surfaces=[dict(name="s0", symmetry=True, mesh=spec, fem_model_type="tube" if k % 2 else "wingbox")],
                         flow=dict(alpha=float(np.round(rng.uniform(0, 6), 2)), v=200.0, rho=0.5, Mach_number=float(np.round(rng.uniform(0.3, 0.9), 3))), _cost=5))
